@@ -3,6 +3,7 @@ package node
 import (
 	"fmt"
 
+	"github.com/freeconf/yang/fc"
 	"github.com/freeconf/yang/meta"
 	"github.com/freeconf/yang/val"
 	"github.com/freeconf/yang/xpath"
@@ -72,7 +73,11 @@ func (xp xpathImpl) resolveOperator(oper *xpath.Operator, ident string, s *Selec
 	if m == nil {
 		return false, fmt.Errorf("'%s' not found in xpath", ident)
 	}
-	b, err := NewValue(m.(meta.HasType).Type(), oper.Lhs)
+	typed, hasType := m.(meta.HasType)
+	if !hasType {
+		return false, fmt.Errorf("%w. '%s' is not a leaf and cannot be compared in xpath", fc.BadRequestError, ident)
+	}
+	b, err := NewValue(typed.Type(), oper.Lhs)
 	if err != nil {
 		return false, err
 	}
@@ -84,13 +89,22 @@ func (xp xpathImpl) resolveOperator(oper *xpath.Operator, ident string, s *Selec
 	if err != nil {
 		return false, err
 	}
+	if a == nil || b == nil {
+		// a leaf without a value satisfies no comparison
+		return false, nil
+	}
 	switch oper.Oper {
 	case "=":
 		return val.Equal(a, b), nil
 	case "!=":
 		return !val.Equal(a, b), nil
-	default:
-		c := a.(val.Comparable).Compare(b.(val.Comparable))
+	case "<", ">", ">=", "<=":
+		ac, aok := a.(val.Comparable)
+		bc, bok := b.(val.Comparable)
+		if !aok || !bok || a.Format() != b.Format() {
+			return false, fmt.Errorf("%w. cannot compare '%s' with %s", fc.BadRequestError, ident, oper.Oper)
+		}
+		c := ac.Compare(bc)
 		switch oper.Oper {
 		case "<":
 			return c < 0, nil
@@ -98,11 +112,11 @@ func (xp xpathImpl) resolveOperator(oper *xpath.Operator, ident string, s *Selec
 			return c > 0, nil
 		case ">=":
 			return c >= 0, nil
-		case "<=":
+		default:
 			return c <= 0, nil
 		}
 	}
-	panic("unrecognized operator: " + oper.Oper)
+	return false, fmt.Errorf("%w. unrecognized operator: %s", fc.BadRequestError, oper.Oper)
 }
 
 func (xp xpathImpl) resolveAbsolutePath(s *Selection) (*Selection, error) {
